@@ -207,6 +207,9 @@ func mergeInterfaces(previousDefinition *ast.Definition, newDefinition *ast.Defi
 		prevCopy.Description = newDefinition.Description
 	}
 
+	// interfaces
+	prevCopy.Interfaces = mergeInterfaceNames(prevCopy.Interfaces, newDefinition.Interfaces)
+
 	// fields
 	if len(previousDefinition.Fields) != len(newDefinition.Fields) {
 		return nil, fmt.Errorf("inconsistent number of fields")
